@@ -116,7 +116,7 @@ pub extern "C" fn tsrun_create_pending_order(
 
     // Get payload value (or undefined if NULL)
     let payload_value = match unsafe { payload.as_ref() } {
-        Some(v) => v.value().clone(),
+        Some(v) => ctx.view(v),
         None => JsValue::Undefined,
     };
 
@@ -204,7 +204,7 @@ pub extern "C" fn tsrun_resolve_promise(
     }
 
     let value_val = match unsafe { value.as_ref() } {
-        Some(v) => RuntimeValue::unguarded(v.value().clone()),
+        Some(v) => RuntimeValue::unguarded(ctx.view(v)),
         None => RuntimeValue::unguarded(JsValue::Undefined),
     };
 
